@@ -67,31 +67,84 @@ Definition spec_target (target : bytes) : bytes :=
 Definition cb_paths_ok (cbs : list (bytes * stat)) : bool :=
   forallb (fun e => bytes_eqb (fst e) (st_path (snd e))) cbs.
 
-(* common part of kinds 0901 / 0903: model = walk_at on the tree built from the snapshot;
-   specification = wf snapshot, no error, callback path = Stat.Path, and spec_walk_b (sorted /
-   exactly once / parents first / true stats incl. the hard-link rule) on the implementation's
-   callbacks against the snapshot restricted to the target. *)
+(* one walk judged on its own: model = walk_at on the tree built from the snapshot;
+   specification = no error, callback path = Stat.Path, and spec_walk_b (sorted / exactly once /
+   parents first / true stats incl. the hard-link rule WITHIN the walked set) on the
+   implementation's callbacks against the snapshot restricted to the target. *)
+Definition walk_judge (t : tree) (snap : list (bytes * lrec)) (target : bytes)
+                      (cbs : list (bytes * stat)) (err : N) : sx * bool :=
+  let m := SL [SL (map (fun st => enc_cb (st_path st, st)) (walk_at t target)); SN 0] in
+  let tc := spec_target target in
+  (m, N.eqb err 0 && cb_paths_ok cbs && spec_walk_b (parent_path tc) (snap_at snap tc) (map snd cbs)).
+
+(* common part of kinds 0901 / 0903 *)
 Definition walk_verdict (target : bytes) (snapx cbsx : sx) (err : N) (info : list (bytes * lrec) -> sx) : sx :=
   match sx_list dec_raw snapx, sx_list dec_cb cbsx with
   | Some snap, Some cbs =>
     match build_tree (T root_rec []) snap with
     | None => v_malformed
     | Some t =>
-      let m := SL [SL (map (fun st => enc_cb (st_path st, st)) (walk_at t target)); SN 0] in
-      let tc := spec_target target in
-      let sp := wf_tree_b t && N.eqb err 0 && cb_paths_ok cbs
-                && spec_walk_b (parent_path tc) (snap_at snap tc) (map snd cbs) in
-      verdict m (SL [cbsx; SN err]) sp (info snap)
+      let (m, sp) := walk_judge t snap target cbs err in
+      verdict m (SL [cbsx; SN err]) (wf_tree_b t && sp) (info snap)
     end
   | _, _ => v_malformed
   end.
 
-(* kind 0901: input = (view extra-links target api); api 0 = NewFS(dir).Walk(ctx, target, fn),
+(* ---- walk histories: a list of steps on ONE FS value.  A step (x...) is a Walk of that target
+        and has one output (callbacks err); a step that is a list (FollowLinks of those paths, which
+        walks the FS internally) has no output.  Every Walk is judged on its own: neither model nor
+        specification carries anything from one walk to the next (walk_at_hardlinks). ---- *)
+Definition dec_walk_out (s : sx) : option (list (bytes * stat) * N) :=
+  match s with SL [cbsx; SN err] => cbs <- sx_list dec_cb cbsx ;; Some (cbs, err) | _ => None end.
+
+Fixpoint step_targets (steps : list sx) : list bytes :=
+  match steps with
+  | [] => []
+  | SB t :: r => t :: step_targets r
+  | _ :: r => step_targets r
+  end.
+
+Fixpoint judge_all (judge : bytes -> list (bytes * stat) -> N -> sx * bool)
+                   (targets : list bytes) (outs : list (list (bytes * stat) * N)) : option (list sx * bool) :=
+  match targets, outs with
+  | [], [] => Some ([], true)
+  | tg :: r, (cbs, err) :: r' =>
+    x <- judge_all judge r r' ;;
+    let (m, sp) := judge tg cbs err in Some (m :: fst x, sp && snd x)
+  | _, _ => None
+  end.
+
+(* kind 0904: input = (view extra-links rootform (step ...)); impl = (snapshot ((callbacks err) ...)) *)
+Definition run_0904 (input impl : sx) : sx :=
+  match input, impl with
+  | SL [_; _; SN _; SL steps], SL [snapx; SL outsx] =>
+    match sx_list dec_raw snapx, omap dec_walk_out outsx with
+    | Some snap, Some outs =>
+      match build_tree (T root_rec []) snap with
+      | None => v_malformed
+      | Some t =>
+        match judge_all (walk_judge t snap) (step_targets steps) outs with
+        | None => v_malformed
+        | Some (ms, sp) => verdict (SL ms) (SL outsx) (wf_tree_b t && sp) (SL [])
+        end
+      end
+    | _, _ => v_malformed
+    end
+  | _, _ => v_malformed
+  end.
+
+(* kind 0901: input = (view extra-links target api [rootform]); api 0 = NewFS(dir).Walk(ctx, target, fn),
    1 = fsutil.WalkDir(dir, nil), 2 = fsutil.WalkDir(dir, &FilterOpt{}), 3 = fsutil.Walk(dir, nil)
-   (1-3 always walk "/").  impl = (snapshot callbacks err). *)
+   (1-3 always walk "/").  impl = (snapshot callbacks err).
+   rootform (optional) = HOW the harness names the directory to the code (the real directory, a
+   symlink to it, a path through a symlinked parent, with trailing slash / "." / ".." segments,
+   relative ...).  It is part of the recipe only: the snapshot is taken of the directory the name
+   RESOLVES to, and neither the model nor the specification depends on the form - the callbacks
+   must be the reference walk of that directory whatever it was called. *)
 Definition run_0901 (input impl : sx) : sx :=
   match input, impl with
-  | SL [_; _; SB target0; SN api], SL [snapx; cbsx; SN err] =>
+  | SL [_; _; SB target0; SN api], SL [snapx; cbsx; SN err]
+  | SL [_; _; SB target0; SN api; SN _], SL [snapx; cbsx; SN err] =>
     walk_verdict (if N.eqb api 0 then target0 else [sep]) snapx cbsx err (fun _ => SL [])
   | _, _ => v_malformed
   end.
@@ -127,8 +180,9 @@ Definition sort_paths (l : list (bytes * lrec)) : list (bytes * lrec) := fold_ri
 Definition ref_walk (snap : list (bytes * lrec)) : list stat :=
   map (fun e => spec_stat snap (fst e) (snd e)) (sort_paths snap).
 
+(* (dirstat view extra-links [rootform]) *)
 Definition dec_sd_in (s : sx) : option stat :=
-  match s with SL [st; _; _] => dec_stat st | _ => None end.
+  match s with SL [st; _; _] | SL [st; _; _; SN _] => dec_stat st | _ => None end.
 
 Fixpoint zip_sds (sts : list stat) (snaps : list (list (bytes * lrec))) : option (list (subdir * list (bytes * lrec))) :=
   match sts, snaps with
@@ -146,13 +200,46 @@ Fixpoint insert_sdn (x : subdir * list (bytes * lrec)) (l : list (subdir * list 
   | y :: l' => if path_ltb (sd_name (fst y)) (sd_name (fst x)) then y :: insert_sdn x l' else x :: l
   end.
 
-(* kind 0902: input = (((dirstat view extra-links) ...) target); impl = ((snapshot ...) callbacks err)
-   with err 0 = nil, 1 = Walk returned an error, 2 = SubDirFS refused the list.
-   Model: walk_subdirs.  Specification (when every name is a proper single component, names are
-   distinct, every Stat is a directory and the target is empty): the callbacks are, for the
-   sub-roots in name order, the sub-root's Stat followed by the reference listing of its snapshot
-   prefixed with its name (paths, hard-link names; absolute symlink targets re-rooted), and the
-   whole sequence is strictly ascending in path order. *)
+(* strings.Cut(target, "/") re-stated: the bytes before the first separator, the bytes after it *)
+Fixpoint before_sep (s : bytes) : bytes :=
+  match s with [] => [] | a :: r => if N.eqb a sep then [] else a :: before_sep r end.
+Fixpoint after_sep (s : bytes) : bytes :=
+  match s with [] => [] | a :: r => if N.eqb a sep then r else after_sep r end.
+
+(* one SubDirFS walk judged on its own.  err: 0 = nil, 1 = Walk (or NewFS) returned an error,
+   2 = SubDirFS refused the list.  Model: walk_subdirs.
+   Specification, when every name is a proper single component, names are distinct and every Stat
+   is a directory: with first/rest = the target cut at its first separator, the callbacks are, for
+   the sub-roots in name order WHOSE NAME IS first (all of them when first is empty), the sub-root's
+   Stat followed by the reference listing of its snapshot restricted to rest (the entry rest and
+   everything below it; hard-link groups within that set), prefixed with the sub-root's name (paths,
+   hard-link names; absolute symlink targets re-rooted); no error; and the whole sequence is
+   strictly ascending in path order.  A sub-root whose name merely starts like the target, or of
+   which the target's first component is a prefix, contributes NOTHING. *)
+Definition subdir_judge (zs : list (subdir * list (bytes * lrec))) (target : bytes)
+                        (cbs : list (bytes * stat)) (err : N) : sx * bool :=
+  let m := match walk_subdirs (map fst zs) target with
+           | None => SL [SL []; SN 2]
+           | Some (out, e) => SL [SL (map enc_cb out); SN (if e then 1 else 0)]
+           end in
+  let names := map (fun z => sd_name (fst z)) zs in
+  let plain := forallb wf_name_b names && nodup_b names
+               && forallb (fun z => st_is_dir (sd_stat (fst z))) zs in
+  let first := before_sep target in
+  let tc := spec_target (after_sep target) in
+  let expected :=
+    flat_map (fun z => if bytes_eqb first [] || bytes_eqb first (sd_name (fst z))
+                       then sd_stat (fst z)
+                            :: map (prefix_stat (sd_name (fst z))) (ref_walk (snap_at (snd z) tc))
+                       else [])
+             (fold_right insert_sdn [] zs) in
+  (m, negb plain
+      || (N.eqb err 0 && cb_paths_ok cbs
+          && forallb (fun z => wf_tree_b (sd_tree (fst z))) zs
+          && sx_eqb (SL (map enc_stat expected)) (SL (map (fun e => enc_stat (snd e)) cbs))
+          && sorted_b (map (fun e => st_path (snd e)) cbs))).
+
+(* kind 0902: input = (((dirstat view extra-links [rootform]) ...) target); impl = ((snapshot ...) callbacks err) *)
 Definition run_0902 (input impl : sx) : sx :=
   match input, impl with
   | SL [SL sdsx; SB target], SL [SL snapsx; cbsx; SN err] =>
@@ -161,23 +248,28 @@ Definition run_0902 (input impl : sx) : sx :=
       match zip_sds sts snaps with
       | None => v_malformed
       | Some zs =>
-        let m := match walk_subdirs (map fst zs) target with
-                 | None => SL [SL []; SN 2]
-                 | Some (out, e) => SL [SL (map enc_cb out); SN (if e then 1 else 0)]
-                 end in
-        let names := map (fun z => sd_name (fst z)) zs in
-        let plain := forallb wf_name_b names && nodup_b names
-                     && forallb (fun z => st_is_dir (sd_stat (fst z))) zs && bytes_eqb target [] in
-        let expected :=
-          flat_map (fun z => sd_stat (fst z)
-                             :: map (prefix_stat (sd_name (fst z))) (ref_walk (snd z)))
-                   (fold_right insert_sdn [] zs) in
-        let sp := negb plain
-                  || (N.eqb err 0 && cb_paths_ok cbs
-                      && forallb (fun z => wf_tree_b (sd_tree (fst z))) zs
-                      && sx_eqb (SL (map enc_stat expected)) (SL (map (fun e => enc_stat (snd e)) cbs))
-                      && sorted_b (map (fun e => st_path (snd e)) cbs)) in
+        let (m, sp) := subdir_judge zs target cbs err in
         verdict m (SL [cbsx; SN err]) sp (SL [])
+      end
+    | _, _, _ => v_malformed
+    end
+  | _, _ => v_malformed
+  end.
+
+(* kind 0905: input = (((dirstat view extra-links [rootform]) ...) (step ...));
+   impl = ((snapshot ...) ((callbacks err) ...)): a walk history on ONE SubDirFS value *)
+Definition run_0905 (input impl : sx) : sx :=
+  match input, impl with
+  | SL [SL sdsx; SL steps], SL [SL snapsx; SL outsx] =>
+    match omap dec_sd_in sdsx, omap (sx_list dec_raw) snapsx, omap dec_walk_out outsx with
+    | Some sts, Some snaps, Some outs =>
+      match zip_sds sts snaps with
+      | None => v_malformed
+      | Some zs =>
+        match judge_all (subdir_judge zs) (step_targets steps) outs with
+        | None => v_malformed
+        | Some (ms, sp) => verdict (SL ms) (SL outsx) sp (SL [])
+        end
       end
     | _, _, _ => v_malformed
     end
